@@ -43,6 +43,7 @@ fn main() {
         "C07" | "frame" => c07::run(seed, n, replay, &mut out),
         "C08ops" => c08::run_ops(seed, n, replay, &mut out),
         "C08tx" => c08::run_tx(seed, n, replay, &mut out),
+        "C09" | "txgas" => c09::run(seed, n, replay, &mut out),
         other => {
             eprintln!("unknown component {other}");
             std::process::exit(2);
